@@ -125,7 +125,11 @@ def judge (f out : List String) : Verdict :=
       let P12 := prepPair t1 t2
       let P21 := prepPair t2 t1
       let cvs := (cutl.zip (triples rest)).map fun p => judgeCut t1 t2 P12 P21 inDom protein.toList p.1 p.2.1 p.2.2.1 p.2.2.2
-      let corr := shapeOk && opsOk && addCorr && cvs.all (·.corr)
+      -- correspondence is decided per cut-off: NaN / ±Inf cut-offs are outside the quantifier ([-1,2]), a difference
+      -- confined to them is drift (named in class and detail), not an in-domain disagreement
+      let realCvs := cvs.filter fun v => v.tag != "nonreal"
+      let nonrealDrift := cvs.any fun v => v.tag == "nonreal" && !v.corr
+      let corr := shapeOk && opsOk && addCorr && realCvs.all (·.corr)
       let pass := shapeOk && opsOk && addPass && cvs.all (·.pass)
       -- a pair outside the property's quantifier is judged only when ALL its cut-offs are out of range
       -- (the rejection clause holds for any tables); otherwise it is correspondence drift only
@@ -144,8 +148,9 @@ def judge (f out : List String) : Verdict :=
         cls := (if inDom then "pair/indomain" ++ (if difId.startsWith "/ids" then "/two-ids" else difId) ++ orderTag ++ ssTag
                 else if rejectOnly then "triv:pair/outside/reject-only" ++ nanTag
                 else "triv:pair/outside" ++ nanTag) ++
-               "/" ++ ",".intercalate tags,
-        detail := if corr && pass then "" else
+               "/" ++ ",".intercalate tags ++ (if nonrealDrift then "/nonreal-drift" else ""),
+        detail := if corr && pass then (if nonrealDrift then "drift on non-real cut-offs only: " ++
+            " ".intercalate ((cvs.filter fun v => !v.corr).map (·.detail)) else "") else
           (if !opsOk then "operands differ from re-weighted regenerated tables; " else "") ++
           (if !addCorr then "add model: " ++ showRes ma12 ++ "; " else "") ++
           (if !addPass then "add spec fails; " else "") ++
